@@ -19,7 +19,7 @@ from harness import text as T
 from harness import textcheck as TC
 from props import _text as X
 
-PROPS = ["Octave.Props.C20"]
+PROPS = ["Octave.Props.C20", "Octave.Props.C20parser"]
 CLASSES = {}
 
 
@@ -116,6 +116,15 @@ def bracket_cases():
         out.append("".join(" " * i + f"B{i}:\n" for i in range(d)) + " " * d + "K::1\n")
         out.append("".join(" " * i + f"§{i}::S\n" for i in range(d)))
     return out
+
+
+def tools_chunk(arg):
+    """worker: the tools clause on a few contents; returns (failures, stats)."""
+    import random as _r
+    seed, idx, contents, share = arg
+    from harness import tools_total as tt
+    fails = tt.tools_total_failures(contents, _r.Random(f"{seed}:tools:{idx}"), share * len(contents))
+    return fails, getattr(tt.tools_total_failures, "last_stats", {"calls": 0, "by_tool": {}})
 
 
 def run(ctx: vlib.Ctx):
@@ -241,8 +250,34 @@ def run(ctx: vlib.Ctx):
             _d, ctext, _cr, ltext, _lr = TC.gen_case(ctx.seed, 100000 + gi)
             gen_docs += [ctext, ltext]
         sample = rng.sample(texts, min(len(texts), ctx.budget(40, 1500))) + corpus[:4] + pool + gen_docs
-        fails = tt.tools_total_failures(sample, rng, ctx.budget(700, 20000))
-        ctx.extra["tool_calls"] = getattr(tt.tools_total_failures, "last_stats", None)
+        # the tools run in worker processes under a deadline: a call that does not return is a failure of the property
+        # (with the content as replay), never a stuck check
+        per = 12
+        tchunks = [(ctx.seed, ci, sample[i:i + per], max(1, ctx.budget(700, 20000) * per // max(1, len(sample))))
+                   for ci, i in enumerate(range(0, len(sample), per))]
+        tres, tunf = vlib.pmap_deadline(tools_chunk, tchunks, 300 if not ctx.thorough else 2400)
+        fails, stats = [], {"calls": 0, "by_tool": {}}
+        for r in tres:
+            if isinstance(r, dict) and "__worker_exception__" in r:
+                raise vlib.Infra(f"tools_total worker failed: {r['__worker_exception__']}")
+            if r is not None:
+                fails += r[0]
+                stats["calls"] += r[1]["calls"]
+                for k, v in r[1]["by_tool"].items():
+                    stats["by_tool"][k] = stats["by_tool"].get(k, 0) + v
+        for ci in tunf[:4]:
+            seed, idx, contents, share = tchunks[ci]
+            for content in contents:
+                kind, val = vlib.run_with_timeout(tools_chunk, (seed, idx, [content], share), 20)
+                if kind == "timeout":
+                    ctx.failures.append({"case": {"content": content, "tools": "octave_validate / octave_write / octave_eject / octave_compile_grammar on this content"},
+                                         "why": "a tool call on this content did not return within 20 s (the same calls take milliseconds on neighbouring contents)",
+                                         "why_class": "tool:hang"})
+                    ctx.count("tool_hang")
+                    break
+            else:
+                ctx.notes.append(f"tool chunk {ci} missed the pool deadline but each content finished alone (load)")
+        ctx.extra["tool_calls"] = stats
         for fl in fails:
             case = {"tool": fl["tool"], "args": fl["args"], "replay": fl.get("replay")}
             ctx.case(case)
